@@ -1,7 +1,7 @@
 """C12 — CTR-wrapper writes keep ciphertext file and plaintext view consistent."""
 from filestack import ctr_slot
 from corr_c01 import gen_crypto_node, VirtualFile, HUGE, CTR_POOL
-from stackcheck import StackCheck, gen_ops
+from stackcheck import StackCheck, add_owner_moves, gen_ops
 
 
 class C12(StackCheck):
@@ -36,7 +36,10 @@ class C12(StackCheck):
             return {'huge': True, 'kind': rng.pick(['ctr', 'ctr', 'twl']), 'key': rng.rbytes(16),
                     'ctr': rng.pick(CTR_POOL[:3] + [rng.getrandbits(100)]), 'seed': rng.rbytes(8), 'ops': ops}
         node, ln = gen_crypto_node(rng, rng.pick(['ctr', 'twl']), [0, 1, 15, 16, 17, 31, 32, 40, 64])
-        return {'node': node, 'ops': gen_ops(rng, ln, writes=True, queries=False)}
+        ops = gen_ops(rng, ln, writes=True, queries=False)
+        if rng.chance(0.35):
+            ops = add_owner_moves(rng, ops, ln)
+        return {'node': node, 'ops': ops}
 
     def run_case(self, case, drv):
         if not case.get('huge'):
